@@ -29,7 +29,7 @@ m = {
     "version": 1,
     "setup_cmd": "cd /verif/symgo && GOFLAGS=-mod=mod GOPROXY=off GOSUMDB=off GOTOOLCHAIN=local go build -o ../bin/symgo .",
     "hooks": {"guard": "verif", "enable": "go build/test -tags verif (harness files are injected with -overlay; symgo loads /repo with tags verif,verifsym)",
-              "baseline_off_cmd": "cd /repo && GOFLAGS=-mod=mod go test -vet=off -count=1 -timeout 25m . ./pkg/...",
+              "baseline_off_cmd": "cd /repo && GOFLAGS=-mod=mod go test -json -vet=off -count=1 -timeout 25m ./...",
               "source_commits": hook_commits, "add_only": True},
     "engines": [{"name": "symgo", "path": "/verif/symgo", "serves_properties": [c["property_id"] for c in checks],
                  "kind_free_text": "symbolic executor for Go written against go/ssa (x/tools v0.29.0): concrete heap shape, symbolic scalars/bytes, re-execution DFS over decision vectors, "
